@@ -104,6 +104,10 @@ class struct(_composite_base):
 
     def set_field(self, name, rhs):
         lhs = getattr(self, name)
+        if lhs is None and rhs is not None and codec_kind.is_composite(type(rhs)):
+            """ a set optional composite: enable it here before copying into it """
+            setattr(self, name, True)
+            lhs = getattr(self, name)
         if isinstance(rhs, base_array):
             if codec_kind.is_composite(rhs._TYPE):
                 if rhs._DYNAMIC or rhs._BOUND:
